@@ -43,15 +43,22 @@ const callTimeoutMs = 1000
 
 type reg struct {
 	n      int
-	static bool // endpoints are published with static weights 100, 8, 40, ...
-	shift  *int // event "rew": the registry rotates the weights among the endpoints (nil: 0)
+	static bool         // endpoints are published with static weights 100, 8, 40, ...
+	shift  *int         // event "rew": the registry rotates the weights among the endpoints (nil: 0)
+	inact  map[int]bool // events "ina<i>" / "act<i>": the registry lists endpoint i as inactive / active again
 }
 
 var staticWeights = []int32{100, 8, 40}
 
-func (r reg) eps() []endpointf.EndpointF {
+// eps: every endpoint the registry knows, by index.
+func (r reg) eps() []endpointf.EndpointF { return r.list(func(i int) bool { return true }) }
+
+func (r reg) list(keep func(int) bool) []endpointf.EndpointF {
 	var out []endpointf.EndpointF
 	for i := 0; i < r.n; i++ {
+		if !keep(i) {
+			continue
+		}
 		e := endpointf.EndpointF{Host: fmt.Sprintf("10.0.0.%d", i+1), Port: int32(basePort + i), Timeout: 3000, Istcp: 1, Weight: 100}
 		if r.static {
 			sh := 0
@@ -67,10 +74,10 @@ func (r reg) eps() []endpointf.EndpointF {
 func (r reg) Registry(ctx context.Context, s *registry.ServantInstance) error   { return nil }
 func (r reg) Deregister(ctx context.Context, s *registry.ServantInstance) error { return nil }
 func (r reg) QueryServant(ctx context.Context, id string) ([]registry.Endpoint, []registry.Endpoint, error) {
-	return r.eps(), nil, nil
+	return r.list(func(i int) bool { return !r.inact[i] }), r.list(func(i int) bool { return r.inact[i] }), nil
 }
 func (r reg) QueryServantBySet(ctx context.Context, id, set string) ([]registry.Endpoint, []registry.Endpoint, error) {
-	return r.eps(), nil, nil
+	return r.QueryServant(ctx, id)
 }
 
 // ---- scripted servers ----------------------------------------------------------
@@ -171,6 +178,7 @@ type world struct {
 	hashRoute   map[string]int
 	static      bool
 	shift       *int
+	inact       map[int]bool
 	lastPB      []int64 // time the endpoint was blocked or last probed
 	reachSince  []int64 // time since which the endpoint's server accepts connections
 }
@@ -243,6 +251,9 @@ func (w *world) apply(ev string) {
 			w.bad = append(w.bad, "call-not-attempted-on-any-endpoint\nevent "+ev)
 			return
 		}
+		if w.inact[i] {
+			w.bad = append(w.bad, fmt.Sprintf("call-routed-to-an-endpoint-the-registry-lists-as-inactive\nep%d", i))
+		}
 		// expected outcome from the server's mode
 		if (w.servers[i].mode == healthy) != (res == "ok") {
 			w.bad = append(w.bad, fmt.Sprintf("call-outcome-contradicts-server-state\nep%d mode=%d result=%s", i, w.servers[i].mode, res))
@@ -305,6 +316,15 @@ func (w *world) apply(ev string) {
 			vm.Sleep(1e6)
 		}
 		vm.Log("t=%d %s", w.now(), ev)
+	case strings.HasPrefix(ev, "ina") || strings.HasPrefix(ev, "act"):
+		// the registry moves endpoint i to its inactive list / back to the active one; the manager refreshes
+		i, _ := strconv.Atoi(ev[3:])
+		w.inact[i] = ev[:3] == "ina"
+		if err := tars.VerifRefresh(w.sp); err != nil {
+			w.bad = append(w.bad, "refresh-failed\n"+err.Error())
+		}
+		w.hashRoute = map[string]int{}
+		vm.Log("t=%d %s", w.now(), ev)
 	case ev == "rew":
 		// the registry publishes other weights for the same endpoints; the manager refreshes
 		*w.shift++
@@ -329,6 +349,9 @@ func (w *world) judge(ev string, before, after []tars.VerifEpState, pqAfter int)
 			continue
 		}
 		left := before[i].InActive && !after[i].InActive
+		if left && strings.HasPrefix(ev, "ina") && w.inact[i] {
+			continue // taken out by the registry, not by the health check
+		}
 		if left {
 			w.lastPB[i] = w.now()
 			if w.failsSince[i] == 0 {
@@ -357,7 +380,9 @@ func (w *world) judge(ev string, before, after []tars.VerifEpState, pqAfter int)
 						other = true
 					}
 				}
-				if other && after[i].InActive {
+				// "in rotation" here = where round-robin calls go (the selector); the manager's own list may keep a
+				// stale record of the endpoint (an entry with older attributes) without routing to it
+				if other && after[i].InSelector {
 					w.bad = append(w.bad, fmt.Sprintf("endpoint-failing-5-times-over-5s-still-in-rotation-after-status-check\nep%d consec=%d since t=%d now t=%d", i, w.consecFails[i], w.firstFailAt[i], w.now()))
 				}
 			}
@@ -371,7 +396,7 @@ func (w *world) expectedRoute(ev string, before []tars.VerifEpState) (int, bool)
 	code64, _ := strconv.ParseUint(ev[5:], 10, 32)
 	var act []endpoint.Endpoint
 	allStatic := true
-	for i, e := range (reg{w.n, w.static, w.shift}).eps() {
+	for i, e := range (reg{w.n, w.static, w.shift, w.inact}).eps() {
 		if i < len(before) && before[i].InActive {
 			ep := endpoint.Tars2endpoint(e)
 			act = append(act, ep)
@@ -384,7 +409,7 @@ func (w *world) expectedRoute(ev string, before []tars.VerifEpState) (int, bool)
 		return 0, false
 	}
 	// the weight switch follows the whole registry list, as the manager derives it
-	for _, e := range (reg{w.n, w.static, w.shift}).eps() {
+	for _, e := range (reg{w.n, w.static, w.shift, w.inact}).eps() {
 		if e.WeightType != 1 {
 			allStatic = false
 		}
@@ -443,9 +468,10 @@ func runHistory(n int, hist []string) (w *world) {
 		hist = hist[1:]
 	}
 	shift := new(int)
+	inact := map[int]bool{}
 	comm := tars.VerifNewCommunicator(tars.VerifClientOpts{AsyncInvokeTimeout: callTimeoutMs, ReadTimeout: 20 * time.Second, WriteTimeout: -1,
-		DialTimeout: 500 * time.Millisecond, Registrar: reg{n, static, shift}, RefreshInterval: 3600000})
-	w = &world{n: n, start: vm.Now(), hashRoute: map[string]int{}, static: static, shift: shift}
+		DialTimeout: 500 * time.Millisecond, Registrar: reg{n, static, shift, inact}, RefreshInterval: 3600000})
+	w = &world{n: n, start: vm.Now(), hashRoute: map[string]int{}, static: static, shift: shift, inact: inact}
 	for i := 0; i < n; i++ {
 		s := &server{idx: i, addr: fmt.Sprintf("10.0.0.%d:%d", i+1, basePort+i)}
 		s.listen()
@@ -481,7 +507,26 @@ var longHistories = map[string][]string{
 		"adv5", "adv1", "call", "call", "rew", "mcall7", "mcall8", "mcall9", "mcall10", "mcall11", "mcall12", "hcall7", "hcall99", "hcall123456", "call", "call", "call"},
 	// many good calls first: the failures that follow are less than half of all calls, the consecutive-failure rule alone must act
 	"healthy-then-dead": {"call", "call", "call", "call", "call", "call", "call", "call", "call", "call", "call", "call", "call", "call", "call", "call", "call", "call", "call", "call", "call", "call", "call", "call", "set0=r", "call", "call", "call", "call", "call", "call", "call", "call", "call", "call", "adv5", "adv1", "call", "call", "call", "call", "adv1", "call", "call", "adv5", "call", "call"},
-	"hashed":            {"set1=r", "hcall7", "hcall7", "hcall123456", "hcall7", "hcall99", "hcall7", "hcall7", "hcall99", "hcall7", "hcall7", "adv5", "adv1", "hcall7", "hcall99", "set1=h", "adv30", "hcall7", "hcall99"},
+	// an endpoint is listed inactive for a while and active again; afterwards it dies: the health check still applies to it
+	"inactive-roundtrip-then-dead": {"call", "call", "call", "call", "ina1", "call", "call", "act1", "call", "call", "call", "call", "set1=r", "call", "call", "call", "call", "call", "call", "call", "call", "call", "call", "call", "call", "call", "call", "call", "call", "call", "call", "call", "call", "adv5", "adv1", "call", "call", "call", "call", "adv1", "call", "call"},
+	// the registry re-weights the endpoints, then one is blocked, probed, reinstated and dies again
+	"reweighted-block-probe-block": {"static", "call", "call", "call", "call", "rew", "call", "call", "set0=r", "call", "call", "call", "call", "call", "call", "call", "call", "call", "call", "call", "call", "call", "call", "call", "call", "call", "call", "call", "call", "call", "call", "call", "call", "call", "call", "call", "call", "call", "call", "adv5", "adv1", "call", "call", "set0=h", "adv30", "adv1", "call", "call", "call", "call", "mcall7", "mcall8", "mcall9", "mcall10", "mcall11", "mcall12", "hcall7", "hcall99", "hcall123456", "set0=r", "call", "call", "call", "call", "call", "call", "call", "call", "call", "call", "call", "call", "call", "call", "call", "call", "call", "call", "call", "call", "call", "call", "call", "call", "call", "call", "call", "call", "call", "call", "adv5", "adv1", "call", "call", "call", "call", "adv1", "call", "call"},
+	"hashed":                       {"set1=r", "hcall7", "hcall7", "hcall123456", "hcall7", "hcall99", "hcall7", "hcall7", "hcall99", "hcall7", "hcall7", "adv5", "adv1", "hcall7", "hcall99", "set1=h", "adv30", "hcall7", "hcall99"},
+}
+
+// callRun: length of the run of "call" events that position p lies strictly inside (0 if it does not).
+func callRun(h []string, p int) int {
+	if p <= 0 || p >= len(h) || h[p-1] != "call" || h[p] != "call" {
+		return 0
+	}
+	a, b := p-1, p
+	for a > 0 && h[a-1] == "call" {
+		a--
+	}
+	for b < len(h)-1 && h[b+1] == "call" {
+		b++
+	}
+	return b - a + 1
 }
 
 func alphabet(n int, thorough bool) []string {
@@ -580,6 +625,11 @@ func main() {
 		}
 		for p := 0; p <= len(h); p += step {
 			if p == 1 && h[0] == "static" {
+				continue
+			}
+			// inside a long run of plain calls (the block-building stretches of 20-30 calls) only every
+			// tenth prefix is a seed: the states in between differ by one more counted call
+			if run := callRun(h, p); run > 12 && p%10 != 0 {
 				continue
 			}
 			extend(h[:p], depth)
